@@ -546,3 +546,10 @@ def tok_kind(cg, t):
     if alt and not pred_holds(alt["pred"], cg.get("features", [])):
         return alt["kind"]
     return cg["ts"].index(t)
+
+
+def parse_args(cg):
+    """extra leading arguments of `parse` (grammar parameters)"""
+    if cg.get("generic"):
+        return "0, &[0u8][..], "
+    return "0, " if cg.get("grammar_param") else ""
